@@ -497,6 +497,12 @@ class GlobalStateGuard:
                 if isinstance(val, type) and getattr(val, "__module__", "").startswith(prefix) and val not in seen_cls:
                     seen_cls.add(val)
                     if BaseModel and isinstance(val, type) and issubclass(val, BaseModel):
+                        # pydantic models: the shared default OBJECTS of the fields (a dict default is one object
+                        # per class; pydantic copies it per instance, code that writes into it reaches everybody)
+                        for fld in getattr(val, "model_fields", {}).values():
+                            d = getattr(fld, "default", None)
+                            if type(d) in (dict, list, set):
+                                self.defaults.append((d, self._copy.deepcopy(d)))
                         continue
                     self.owners.append((val, self._plain_attrs(val)))
                     for f in vars(val).values():
